@@ -16,6 +16,30 @@ CHECKS = {
             'texts/layouts - only sampling with an independent oracle scales to that domain.',
             'Trusts the model-side expected_tree transcription of the documented tree shape (DESIGN appendix A) '
             'and the renderer\'s token/separator rules; never proves absence.', '4/C02'),
+    'C01': ('exploration',
+            'Hypothesis model-based module sets; oracle = the model\'s own OID resolution vs JSON oid, recorded pysnmp '
+            'constructor argument and compile() status attributes',
+            'Generated-input search over OID tree shapes, declaration orders, import chains and sub-identifier '
+            'spellings; the expected OID of every node is computed by the generator\'s model (parent OID + arcs) and '
+            'compared with all three observation points; compile() must report every module compiled.',
+            'Trusts the model-side OID arithmetic and the hand-written fixture base modules; names are unique '
+            'across a generated set.', '4/C01'),
+    'C03': ('exploration',
+            'Hypothesis model-based modules (all declaration kinds mixed); reference-model oracle for key set and '
+            'per-entry members of the JSON document',
+            'Every generated module is compiled to JSON, parsed with json.loads and compared with the entries '
+            'derived from the model: exact key set, class, nodetype, status, maxaccess, units, revisions, '
+            'lastupdated, productrelease.',
+            'Trusts oracle.expected_entries (DESIGN appendix B); SEQUENCE/MACRO/CHOICE definitions are exempt.',
+            '4/C03'),
+    'C05': ('exploration',
+            'Hypothesis model-based syntaxes/DEFVALs with boundary literals; reference-model oracle on JSON members '
+            'and on attributes captured by a recording MIB builder',
+            'Generated types, refinements (dec/hex/bin literals at token-class boundaries), derived-type chains '
+            'across modules and every DEFVAL notation; JSON syntax/type/default members and the executed pysnmp '
+            'classes (subtypeSpec additions, namedValues, default*) must carry exactly the written values.',
+            'Trusts the reference syntax/default model and the recording builder\'s reading of the generated '
+            'Python; DEFVALs are generated only within the constraints in force.', '4/C05'),
     'C11': ('exploration',
             'exhaustive prefix enumeration of generated files + Hypothesis token mutants/noise; oracle = exception '
             'type, completeness by the renderer span table, exact line of never-viable tokens; atheris in thorough',
